@@ -675,7 +675,9 @@ class Reindex(BoundedCheck):
         pool = {'range': lambda xs: [2000 + i for i in xs], 'list-str': lambda xs: [f'p{i}' for i in xs]}
         news = [[0, 1, 2, 3], [1, 2, 3, 4], [5, 6], [3, 1, 0, 2], [1, 2], [-1, 0, 1, 2, 3, 4], [3, 1, 1, 7, 3], []]
         fills = [dict(), dict(fill_value=9), dict(A=7.5), dict(fill_value=0, I=4), dict(fill_value=2, B=False, S='zz'), dict(iterations=0, status=''),
-                 dict(nosuch=1), dict(fill_value=0.0, A=0.0), dict(size=1), dict(copy=0, A=1.0), dict(note=2)]
+                 dict(nosuch=1), dict(fill_value=0.0, A=0.0), dict(size=1), dict(copy=0, A=1.0), dict(note=2),
+                 # a per-variable keyword given as None asks for that variable's dtype default, whatever fill_value says
+                 dict(fill_value=7, A=None, I=None), dict(fill_value=1, B=None, S=None, F32=None)]
         for sp in pool:
             for new in news:
                 for fl in fills:
@@ -810,7 +812,7 @@ class Reindex(BoundedCheck):
                 out.append(Violation('dtypes carry over', 'c12.dtype', dict(case, var=k), str(c[k].dtype), str(r[k].dtype), 'dtype'))
                 continue
             if k in fills:
-                fill = fills[k]
+                fill = fills[k] if fills[k] is not None else defaults[kind]
             elif case['target'] == 'model' and k == 'status':
                 fill = '-'              # model bookkeeping: its own defaults unless a per-variable keyword is given
             elif case['target'] == 'model' and k == 'iterations':
